@@ -137,7 +137,7 @@ Lemma ld_unfold {A} (body : M lstate A) s ev :
 Proof. reflexivity. Qed.
 
 Lemma spec_exec_refines e c s o :
-  l_exec RepairedNesting e c o (mkW Free s []) = outcome_of (lstep e c s o).
+  l_exec CurrentNesting e c o (mkW Free s []) = outcome_of (lstep e c s o).
 Proof.
   destruct o as [id hash f be|b|id|].
   - (* Queue *)
@@ -184,7 +184,7 @@ Qed.
 (* whole histories: the lock-language run of the repaired handlers IS the pure run; in particular
    no call of it is ever stuck and the lock is free again after every call *)
 Lemma run_legacy_pure e c : forall h s,
-  run_lang (l_exec RepairedNesting e c) l_papp l_ppend Free s h = run_lpure e c s h.
+  run_lang (l_exec CurrentNesting e c) l_papp l_ppend Free s h = run_lpure e c s h.
 Proof.
   induction h as [|o r IH]; intros s; [reflexivity|].
   cbn [run_lang run_lpure]. rewrite spec_exec_refines.
